@@ -73,7 +73,7 @@ FORMS = {
     "one": ["return_value", "of", "just"],
     "take": ["take", "first", "take_while", "element_at", "take_while_indexed", "first_or_default", "slice",
              "is_empty", "some", "find", "find_index", "all", "first_pred"],
-    "map": ["map", "filter", "do_action", "skip0", "as_observable", "default_if_empty", "scan", "timestamp", "skip_while",
+    "map": ["map", "filter", "do_action", "skip0", "as_observable", "scan", "timestamp", "skip_while",
             "map_indexed", "filter_indexed"],
     "merge": ["rx.merge", "ops.merge", "merge_max_concurrent"],
     "concat": ["rx.concat", "ops.concat", "concat_with_iterable"],
@@ -281,8 +281,6 @@ def build(scn: Dict[str, Any], form: Dict[str, str], counter: Counter, profile: 
                 return src.pipe(ops.skip(0))
             if f == "as_observable":
                 return src.pipe(ops.as_observable())
-            if f == "default_if_empty":
-                return src.pipe(ops.default_if_empty("dflt"))
             if f == "scan":
                 return src.pipe(ops.scan(lambda _acc, x: x))
             if f == "timestamp":
